@@ -19,6 +19,7 @@ import (
 	cidprimary "github.com/ipld/go-storethehash/store/primary/cid"
 	mhprimary "github.com/ipld/go-storethehash/store/primary/multihash"
 	"github.com/ipld/go-storethehash/store/types"
+	"github.com/ipld/go-storethehash/store/vhook"
 )
 
 var log = logging.Logger("storethehash")
@@ -197,29 +198,35 @@ func translateIndex(ctx context.Context, indexPath string, primary primary.Prima
 	if err = newIndex.Close(); err != nil {
 		return fmt.Errorf("error closing new index: %w", err)
 	}
+	vhook.Point("translate.newClosed")
 	if err = oldIndex.Close(); err != nil {
 		return fmt.Errorf("error closing old index: %w", err)
 	}
+	vhook.Point("translate.oldClosed")
 
 	// Create a temp directory for the old index files and move them there.
 	oldTmp, err := os.MkdirTemp(indexDir, "old_index")
 	if err != nil {
 		return err
 	}
+	vhook.Point("translate.oldTmpMade")
 	if err = index.MoveFiles(indexPath, oldTmp); err != nil {
 		return fmt.Errorf("cannot move old index files: %w", err)
 	}
 
+	vhook.Point("translate.oldMoved")
 	// Move the new index file from the temp directory to the index directory.
 	if err = index.MoveFiles(newIndexPath, indexDir); err != nil {
 		return fmt.Errorf("cannot move new index files: %w", err)
 	}
 
+	vhook.Point("translate.newMoved")
 	// Remove the old index files.
 	if err = os.RemoveAll(oldTmp); err != nil {
 		return fmt.Errorf("cannot remove old index files: %w", err)
 	}
 
+	vhook.Point("translate.oldRemoved")
 	log.Infof("Finished translating index to %d bit prefix", indexSizeBits)
 	return nil
 }
@@ -249,9 +256,11 @@ func (s *Store) run() {
 	for {
 		select {
 		case <-s.flushNow:
+			vhook.Point("run.flushNow")
 			if err := s.Flush(); err != nil {
 				s.setErr(err)
 			}
+			vhook.Point("run.flushed")
 		case <-s.closing:
 			d.Stop()
 			select {
@@ -283,26 +292,31 @@ func (s *Store) Close() error {
 	running := s.running
 	s.running = false
 	s.stateLk.Unlock()
+	vhook.Point("close.begin")
 
 	if running {
 		close(s.closing)
 		<-s.closed
 	}
 
+	vhook.Point("close.stopped")
 	cerr := s.Err()
 
 	err := s.index.Close()
 	if err != nil {
 		cerr = err
 	}
+	vhook.Point("close.indexClosed")
 	if err = s.index.Primary.Close(); err != nil {
 		cerr = err
 	}
+	vhook.Point("close.primaryClosed")
 	s.fileCache.Clear()
 	if err = s.freelist.Close(); err != nil {
 		cerr = err
 	}
 
+	vhook.Point("close.freelistClosed")
 	return cerr
 }
 
@@ -317,6 +331,7 @@ func (s *Store) Get(key []byte) ([]byte, bool, error) {
 		return nil, false, err
 	}
 	fileOffset, found, err := s.index.Get(indexKey)
+	vhook.Point("get.indexGot")
 	if err != nil {
 		return nil, false, err
 	}
@@ -360,6 +375,7 @@ func (s *Store) Put(key []byte, value []byte) error {
 	}
 	// See if the key already exists and get offset
 	prevOffset, found, err := s.index.Get(indexKey)
+	vhook.Point("put.indexGot")
 	if err != nil {
 		return err
 	}
@@ -392,6 +408,7 @@ func (s *Store) Put(key []byte, value []byte) error {
 		}
 	}
 
+	vhook.Point("put.primaryChecked")
 	// We are ready now to start putting/updating the value in the key.
 	// Put value in primary storage first. In primary storage we put
 	// the key, not the indexKey. The storage knows how to manage the key
@@ -401,6 +418,7 @@ func (s *Store) Put(key []byte, value []byte) error {
 		return err
 	}
 
+	vhook.Point("put.primaryPut")
 	// If the key being set is not found, or the stored key is not equal
 	// (even if same prefix is shared @index), we put the key without updates
 	if !cmpKey {
@@ -414,12 +432,14 @@ func (s *Store) Put(key []byte, value []byte) error {
 		if err = s.index.Update(indexKey, fileOffset); err != nil {
 			return err
 		}
+		vhook.Point("put.indexUpdated")
 		// Add outdated data in primary storage to freelist
 		if err = s.freelist.Put(prevOffset); err != nil {
 			return err
 		}
 	}
 
+	vhook.Point("put.indexed")
 	s.flushTick()
 
 	return nil
@@ -438,6 +458,7 @@ func (s *Store) Remove(key []byte) (bool, error) {
 	}
 	// See if the key already exists and get offset
 	offset, found, err := s.index.Get(indexKey)
+	vhook.Point("remove.indexGot")
 	if err != nil {
 		return false, err
 	}
@@ -459,10 +480,12 @@ func (s *Store) Remove(key []byte) (bool, error) {
 		return false, nil
 	}
 
+	vhook.Point("remove.primaryChecked")
 	removed, err := s.index.Remove(storedKey)
 	if err != nil {
 		return false, err
 	}
+	vhook.Point("remove.indexRemoved")
 	if removed {
 		// Mark slot in freelist
 		err = s.freelist.Put(offset)
@@ -471,6 +494,7 @@ func (s *Store) Remove(key []byte) (bool, error) {
 		}
 	}
 
+	vhook.Point("remove.done")
 	s.flushTick()
 	return removed, nil
 }
@@ -529,6 +553,7 @@ func (s *Store) flushTick() {
 	lastFlush := s.lastFlush
 	s.rateLk.Unlock()
 
+	vhook.Point("tick.measured")
 	if flushRate == 0 {
 		// Do not know the flush rate yet.
 		return
@@ -551,6 +576,7 @@ func (s *Store) flushTick() {
 	// to come in and be stored in memory faster that flushes could handle it,
 	// leading to memory exhaustion.
 	if inRate > flushRate {
+		vhook.Point("tick.decided")
 		// Get a channel that broadcasts next flush completion.
 		s.rateLk.Lock()
 		if s.flushNotice == nil {
@@ -559,6 +585,7 @@ func (s *Store) flushTick() {
 		flushNotice := s.flushNotice
 		s.rateLk.Unlock()
 
+		vhook.Point("tick.registered")
 		// Trigger flush now, non-blocking.
 		select {
 		case s.flushNow <- struct{}{}:
@@ -568,8 +595,10 @@ func (s *Store) flushTick() {
 			// since the existing unread signal guarantees the a flush.
 		}
 
+		vhook.Point("tick.signalled")
 		// Wait for next flush to complete.
 		<-flushNotice
+		vhook.Point("tick.released")
 	}
 }
 
@@ -578,14 +607,17 @@ func (s *Store) commit() (types.Work, error) {
 	if err != nil {
 		return 0, err
 	}
+	vhook.Point("commit.primaryFlushed")
 	indexWork, err := s.index.Flush()
 	if err != nil {
 		return 0, err
 	}
+	vhook.Point("commit.indexFlushed")
 	flWork, err := s.freelist.Flush()
 	if err != nil {
 		return 0, err
 	}
+	vhook.Point("commit.freelistFlushed")
 	if s.syncOnFlush {
 		// finalize disk writes
 		if err = s.index.Primary.Sync(); err != nil {
@@ -614,7 +646,9 @@ func (s *Store) Flush() error {
 	s.lastFlush = lastFlush
 	s.rateLk.Unlock()
 
+	vhook.Point("flush.stamped")
 	if !s.outstandingWork() {
+		vhook.Point("flush.noWork")
 		return nil
 	}
 
@@ -623,6 +657,7 @@ func (s *Store) Flush() error {
 		return err
 	}
 
+	vhook.Point("flush.committed")
 	var rate float64
 	if work > types.Work(s.burstRate) {
 		now := time.Now()
@@ -634,11 +669,13 @@ func (s *Store) Flush() error {
 	if rate != 0 {
 		s.flushRate = rate
 	}
+	s.flushRate = vhook.Rate(s.flushRate)
 	if s.flushNotice != nil {
 		close(s.flushNotice)
 		s.flushNotice = nil
 	}
 	s.rateLk.Unlock()
+	vhook.Point("flush.noticed")
 
 	return nil
 }
@@ -653,6 +690,7 @@ func (s *Store) Has(key []byte) (bool, error) {
 		return false, err
 	}
 	blk, found, err := s.index.Get(indexKey)
+	vhook.Point("has.indexGot")
 	if !found || err != nil {
 		return false, err
 	}
@@ -674,6 +712,7 @@ func (s *Store) GetSize(key []byte) (types.Size, bool, error) {
 		return 0, false, err
 	}
 	blk, found, err := s.index.Get(indexKey)
+	vhook.Point("getsize.indexGot")
 	if err != nil {
 		return 0, false, err
 	}
